@@ -7,7 +7,7 @@ import random
 from . import common as C
 
 PID = "C10"
-MODES = ["connected", "k_core", "complete_linkage", "star"]
+MODES = ["connected", "k_core", "complete_linkage", "star", "centroid"]
 
 
 def lean_line(case, impl_groups):
@@ -101,6 +101,53 @@ def run(tier, seed, replay=None):
         for k in ks:
             for n, pairs in small:
                 cases.append({"N": n, "Pairs": pairs, "Den": den, "Theta": theta, "K": k, "Mode": mode, "Reps": 2, "Files": 2})
+    # ---- a hair below the threshold: similarities on the grid 1/2^40 (exact in float64), threshold 3/4, levels θ-2^-40 (inside any
+    # "almost equal" epsilon), θ, θ+2^-40 and one clearly lower value: every 3-fragment graph and a sample of the 4-fragment ones per mode
+    fden = 1 << 40
+    fth = 3 << 38
+    flevels = [fth - 1, fth, fth + 1, fth - (1 << 34)]
+    fsmall = list(small_cases(3, fden, fth, flevels))
+    f4 = list(small_cases(4, fden, fth, flevels[:3]))
+    rng.shuffle(f4)
+    for mode in MODES:
+        for k in ([2, 3] if mode == "k_core" else [2]):
+            for n, pairs in fsmall + f4[:400 if tier == "quick" else 4096]:
+                cases.append({"N": n, "Pairs": pairs, "Den": fden, "Theta": fth, "K": k, "Mode": mode, "Reps": 1, "Files": 2})
+    # ---- WIDE components (size limits inside a strategy): cliques, wheels and paths of 49..53, 100 and 120 fragments, two of them side by side
+    for mode in MODES:
+        for m in ([49, 50, 51, 52, 53, 100, 120] if tier == "thorough" else [50, 51, 52, 120]):
+            for shape in ("clique", "wheel", "path"):
+                if shape == "clique" and m > 60 and mode in ("complete_linkage", "star"):
+                    continue
+                n = m + 3
+                if shape == "clique":
+                    pairs = [[u, v, theta + 4] for u in range(m) for v in range(u + 1, m)]
+                elif shape == "wheel":
+                    pairs = [[0, v, theta + 4] for v in range(1, m)] + [[v, v + 1, theta + 2] for v in range(1, m - 1)] + [[m - 1, 1, theta + 2]]
+                else:
+                    pairs = [[v, v + 1, theta + 4] for v in range(m - 1)]
+                pairs += [[m, m + 1, theta + 8], [m + 1, m + 2, theta - 1]]
+                rng.shuffle(pairs)
+                cases.append({"N": n, "Pairs": pairs, "Den": den, "Theta": theta, "K": 2, "Mode": mode, "Reps": 1, "Files": 3})
+    # ---- fragments that CARRY syntax trees, some of them identical although no pair between them is reported (a strategy must group by
+    # the reported pairs only, whatever it could compute itself)
+    for mode in MODES:
+        for _ in range(40 if tier == "quick" else 400):
+            n = rng.randrange(4, 10)
+            verts = list(range(n))
+            rng.shuffle(verts)
+            twins = [verts[:2], verts[2:4]] if n >= 6 and rng.random() < 0.5 else [verts[:rng.choice([2, 3])]]
+            tw = set(map(tuple, [sorted(p) for t in twins for p in itertools.combinations(t, 2)]))
+            pairs = []
+            for u, v in itertools.combinations(range(n), 2):
+                if (u, v) in tw and rng.random() < 0.8:
+                    continue                       # identical trees, pair NOT reported
+                if rng.random() < 0.45:
+                    pairs.append([u, v, rng.choice([theta - 1, theta, theta + 3, 64])])
+            if not pairs:
+                continue
+            rng.shuffle(pairs)
+            cases.append({"N": n, "Pairs": pairs, "Den": den, "Theta": theta, "K": 2, "Mode": mode, "Reps": 1, "Files": 2, "Twins": twins})
     if tier == "thorough":
         cells = list(itertools.combinations(range(5), 2))
         for _ in range(30000):
@@ -142,7 +189,7 @@ def run(tier, seed, replay=None):
             if not r["size_ok"]:
                 bad = "group Size differs from the number of fragments"
             if not r["members_sorted"]:
-                bad = "group members are not in location order"
+                hist["members_not_in_location_order"] = hist.get("members_not_in_location_order", 0) + 1   # not part of C10 (BFS order in centroid mode)
         if model is not None and bad is None:
             m = model[ci].split("|")
             if len(m) != 3:
@@ -158,8 +205,14 @@ def run(tier, seed, replay=None):
                     bad = "%s groups `%s` differ from the proved model's `%s`" % (c["Mode"], ig, mg)
         if bad:
             diffs += 1
-            res.violation("C10 fails (%s, n=%d, theta=%d/%d, k=%d): %s" % (c["Mode"], c["N"], c["Theta"], c["Den"], c["K"], bad),
-                          {"case": c, "impl": r0, "model": None if model is None else model[ci]})
+            sig = {"kind": "group-contract", "mode": c["Mode"], "trees": bool(c.get("Twins")),
+                   "what": "common" if "common contract" in bad else ("contract" if "contract" in bad else "other")}
+            kf = C.classify(PID, sig)
+            msg = "C10 fails (%s, n=%d, theta=%d/%d, k=%d): %s" % (c["Mode"], c["N"], c["Theta"], c["Den"], c["K"], bad)
+            if kf:
+                res.known_finding(kf, "(%s)" % msg[:300])
+            else:
+                res.violation(msg, {"signature": sig, "case": c, "impl": r0, "model": None if model is None else model[ci]})
     # ---- report level: clone.clone_groups[] of the real CLI vs the pairs REPORTED in the same JSON (connected mode, the CLI's mode) --------
     import shutil
     import tempfile
